@@ -365,6 +365,9 @@ func (w *l1World) genOp(spec *modelL1, bc blockCtx) (sdk.Msg, string, string) {
 			prevBlk = o.L2Block
 		}
 		l2 := prevBlk + 1 + uint64(w.r.Intn(10))
+		if b.NextOutIdx == 1 && w.r.Chance(1, 6) {
+			l2 = 0 // an output committing to the L2 genesis block
+		}
 		switch w.r.Weighted([]int{12, 1, 1}) {
 		case 1:
 			l2 = prevBlk
@@ -374,6 +377,10 @@ func (w *l1World) genOp(spec *modelL1, bc blockCtx) (sdk.Msg, string, string) {
 			}
 		}
 		root, desc := w.genRoot(spec, b)
+		if o := b.Outputs[b.NextOutIdx-1]; o != nil && w.r.Chance(1, 12) {
+			// a proposer-bot retry: exactly the latest output again
+			idx, l2, root, desc = b.NextOutIdx-1, o.L2Block, o.Root, "RESEND-latest"
+		}
 		signer := w.pickSigner(b.Cfg.Proposer)
 		return &ophosttypes.MsgProposeOutput{Proposer: signer, BridgeId: id, OutputIndex: idx, L2BlockNumber: l2, OutputRoot: root[:]}, k,
 			fmt.Sprintf("bridge=%d idx=%d l2block=%d by=%s %s", id, idx, l2, short(signer), desc)
@@ -609,7 +616,28 @@ func (w *l1World) genClaim(spec *modelL1, bc blockCtx) (sdk.Msg, string) {
 	}
 	var tags []string
 	for k := 0; k < np; k++ {
-		switch w.r.Intn(20) {
+		switch w.r.Intn(21) {
+		case 20:
+			// a withdrawal of some other commitment the proposer once built for this bridge (e.g. one whose
+			// proposal was rejected or rolled back), offered against the current output
+			var roots []prover.Hash
+			for rt, cm := range w.commits {
+				if len(cm.Leaves) > 0 && rt != o.Root {
+					roots = append(roots, rt)
+				}
+			}
+			sort.Slice(roots, func(i, j int) bool { return bytes.Compare(roots[i][:], roots[j][:]) < 0 })
+			if len(roots) > 0 {
+				cm := w.commits[roots[w.r.Intn(len(roots))]]
+				p2 := w.r.Intn(len(cm.Leaves))
+				if cm.Leaves[p2] < len(w.univ[b.ID]) {
+					o2 := w.univ[b.ID][cm.Leaves[p2]]
+					msg.Sequence, msg.From, msg.To, msg.Amount = o2.Seq, o2.From, o2.To, sdk.Coin{Denom: o2.Denom, Amount: math.NewIntFromUint64(o2.Amount)}
+					msg.Version, msg.StorageRoot, msg.LastBlockHash = []byte{cm.Version}, append([]byte{}, cm.Storage[:]...), append([]byte{}, cm.BlockHash[:]...)
+					msg.WithdrawalProofs = hashes(cm.Tree.Proof(p2))
+				}
+			}
+			tags = append(tags, "other-commitment")
 		case 0:
 			flip(msg.StorageRoot)
 			tags = append(tags, "flip-storage-root")
